@@ -26,6 +26,23 @@ Theorem C11_nearest_none : forall t ctx l,
 Proof. exact nearest_none. Qed.
 Print Assumptions C11_nearest_none.
 
+(* the clauses of the property as corollaries: an allowlist alone excludes every builder that is not (under) a listed
+   context — an empty one, or one naming only unknown contexts, excludes every builder; a blocklist alone excludes
+   exactly the builders that are (under) a listed context *)
+Theorem C11_allowlist_alone_excludes : forall t ctx l, wf_tree t ->
+  (is_allowed t ctx None (Some l) = Ok Blocked <-> forall n, In n l -> entry t ctx n = None).
+Proof. exact allowlist_alone_blocks_iff. Qed.
+Print Assumptions C11_allowlist_alone_excludes.
+
+Theorem C11_empty_allowlist_builds_nowhere : forall t ctx, wf_tree t -> is_allowed t ctx None (Some []) = Ok Blocked.
+Proof. exact empty_allowlist_builds_nowhere. Qed.
+Print Assumptions C11_empty_allowlist_builds_nowhere.
+
+Theorem C11_blocklist_alone_allows : forall t ctx l, wf_tree t ->
+  (is_allowed t ctx (Some l) None = Ok Allowed <-> forall n, In n l -> entry t ctx n = None).
+Proof. exact blocklist_alone_allows_iff. Qed.
+Print Assumptions C11_blocklist_alone_allows.
+
 (* the decision does not depend on the order in which names are written in either list *)
 Theorem C11_order_independent : forall t ctx bl bl' al al',
   wf_tree t ->
